@@ -332,6 +332,7 @@ struct Engine {
         p.set("arith_lhs", true);
         p.set("sort_sums", true);
         p.set("max_degree", 64u);
+        p.set("som_blowup", 100000u); // (the default of 10 stops the expansion of products of sums of more than a few terms)
         z3::expr d = (a - b).simplify(p);
         if (d.is_numeral()) {
             std::string n = d.get_decimal_string(0);
@@ -706,8 +707,15 @@ struct Engine {
                 }
             }
         }
-        if (r == z3::unknown && g_arithUsed)
+        if (r == z3::unknown && g_arithUsed) {
+            // the ground cases may still need some propagation time (chains of quotient/remainder definitions)
+            z3::params pr(Z);
+            pr.set("timeout", (unsigned)(slowTimeout / 2 > fastTimeout ? slowTimeout / 2 : fastTimeout));
+            S->set(pr);
             r = splitCheck(wantModel, 4096);
+            pr.set("timeout", (unsigned)fastTimeout);
+            S->set(pr);
+        }
         S->pop();
         if (r == z3::sat) st.sat++; else if (r == z3::unsat) st.unsat++;
         double dt = std::chrono::duration<double>(std::chrono::steady_clock::now() - t0).count();
